@@ -393,182 +393,3 @@ def _(c):
 # inlined) was tried and took more than 45 minutes of path replay, so it was withdrawn.  Its loop body consists of the calls proved
 # here: interface.partition (dispatch), truncate_timepoints_less_than, simulate_daughter_cells (links, list alignment), and
 # simulate_cell_list for the roots.
-
-# ------------------------------------------------------------------------------------------------ bodies of the lineage interface
-# (verify_only variants: the loops over the C pointer vectors are proved against the abstract symbols of the virtual rule /
-#  event / propensity methods; the abstract contracts above stay in force at the call sites of the single-cell loop)
-from bsvc.contracts import Contract
-from bsvc import contracts as C
-
-
-def _abstract(module, qualname, ensures, modifies=()):
-    @fuc(module, qualname, props=PROPS)
-    def _(c):
-        c.abstract = True
-        c.verify_body = False
-        c.ensures(ensures)
-        c.modifies(*modifies)
-        c.note('abstract contract of a virtual lineage rule / event method: a function of its arguments')
-
-
-_abstract('lineage', 'DeathRule.check_dead', 'result == ifun("check_dead", self, state, params, time, volume, initial_time, initial_volume)')
-_abstract('lineage', 'DivisionRule.check_divide', 'result == ifun("check_divide", self, state, params, time, volume, initial_time, initial_volume)')
-_abstract('lineage', 'VolumeRule.get_volume', 'result == ufun("rule_volume", self, state, params, volume, time, dt)')
-_abstract('lineage', 'VolumeEvent.get_volume', 'result == ufun("event_volume", self, state, params, volume, time)')
-
-
-def body(qualname, fn):
-    c = Contract('lineage', L + qualname, PROPS, variant='body')
-    fn(c)
-    c.opt(verify_only=True)
-    C.REGISTRY[c.key] = c
-    C.ORDER.append(c.key)
-
-
-def _props(c):
-    c.requires('len(propensity_destination) >= self.num_reactions + self.num_lineage_propensities and len(self.c_propensities[0]) >= self.num_reactions '
-               'and len(self.c_lineage_propensities[0]) >= self.num_lineage_propensities')
-    R = 'ufun("rate_STOVOL", self.c_propensities[0][%s], state, self.c_param_values, volume, time)'
-    E = 'ufun("rate_STOVOL", self.c_lineage_propensities[0][%s], state, self.c_param_values, volume, time)'
-    c.loop(0).invariant('forall(lambda q: implies(0 <= q and q < ind, propensity_destination[q] == %s))' % (R % 'q'), label='reactions') \
-             .invariant('forall(lambda q: implies(q >= ind, propensity_destination[q] == old(propensity_destination[q])))', label='rest')
-    c.loop(1).invariant('forall(lambda q: implies(0 <= q and q < self.num_reactions, propensity_destination[q] == %s))' % (R % 'q'), label='reactions-kept') \
-             .invariant('forall(lambda q: implies(0 <= q and q < ind, propensity_destination[self.num_reactions + q] == %s))' % (E % 'q'), label='events') \
-             .invariant('forall(lambda q: implies(q >= self.num_reactions + ind, propensity_destination[q] == old(propensity_destination[q])))', label='rest')
-    c.ensures('forall(lambda q: implies(0 <= q and q < self.num_reactions, propensity_destination[q] == %s))' % (R % 'q'),
-              label='reactions-first-in-stochastic-volume-form')
-    c.ensures('forall(lambda q: implies(0 <= q and q < self.num_lineage_propensities, propensity_destination[self.num_reactions + q] == %s))' % (E % 'q'),
-              label='then-the-event-propensities-in-registration-order')
-    c.modifies('propensity_destination')
-
-
-body('compute_lineage_propensities', _props)
-
-
-def _first(method, field, count, sym, callee):
-    def f(c):
-        c.requires('len(self.%s[0]) >= self.%s' % (field, count))
-        V = 'ifun("%s", self.%s[0][%%s], state, self.c_param_values, time, volume, start_time, start_volume)' % (sym, field)
-        c.loop(0).invariant('forall(lambda q: implies(0 <= q and q < ind, not (%s > 0)))' % (V % 'q'), label='none-fired-so-far')
-        c.ensures('-1 <= result and result < self.%s' % count, label='index-in-range')
-        c.ensures('implies(result >= 0, %s > 0 and forall(lambda q: implies(0 <= q and q < result, not (%s > 0))))' % (V % 'result', V % 'q'),
-                  label='first-rule-that-fires')
-        c.ensures('implies(result == -1, forall(lambda q: implies(0 <= q and q < self.%s, not (%s > 0))))' % (count, V % 'q'), label='minus-one-iff-none-fires')
-        c.modifies()
-    body(method, f)
-
-
-_first('apply_death_rules', 'c_death_rules', 'num_death_rules', 'check_dead', 'check_dead')
-_first('apply_division_rules', 'c_division_rules', 'num_division_rules', 'check_divide', 'check_divide')
-
-
-def _vevent(c):
-    c.requires('0 <= event_index and event_index < len(self.c_volume_events[0])')
-    c.ensures('result == ufun("event_volume", self.c_volume_events[0][event_index], state, self.c_param_values, current_volume, current_time)',
-              label='the-event-named-by-the-index')
-    c.modifies()
-
-
-body('apply_volume_event', _vevent)
-
-
-# volume rules are chained: vfold(rules, 0, ..) = the volume at entry; vfold(rules, n, ..) = rule n-1 applied to vfold(rules, n-1, ..)
-from bsvc import axioms, speclib
-from bsvc.values import to_term
-
-_I0, _I1 = tm.mk_int(0), tm.mk_int(1)
-
-
-def _vfold_ax(t, ctx):
-    rules, n, st, pa, v0, time, dt = t.args[1:8]
-    prev = tm.app('vfold', (rules, tm.sub(n, _I1), st, pa, v0, time, dt), REAL)
-    step = tm.app('rule_volume', (tm.select(rules, tm.sub(n, _I1)), st, pa, prev, time, dt), REAL)
-    return [tm.implies(tm.le(n, _I0), tm.eq(t, v0)), tm.implies(tm.gt(n, _I0), tm.eq(t, step))]
-
-
-axioms.register('vfold', _vfold_ax, 'vfold(rules,0,..,v,..)=v; vfold(rules,n,..)=rule_volume(rules[n-1], .., vfold(rules,n-1,..), ..)')
-
-
-@speclib.spec('vfold')
-def _vfold(ex, rules, n, st, pa, v0, time, dt):
-    g = lambda a: a.term if isinstance(a, Arr) else to_term(a)
-    return tm.app('vfold', (g(rules), to_term(n), g(st), g(pa), tm.to_real(to_term(v0)), tm.to_real(to_term(time)), tm.to_real(to_term(dt))), REAL)
-
-
-def _vrules(c):
-    c.requires('len(self.c_volume_rules[0]) >= self.num_volume_rules')
-    c.loop(0).invariant('volume == vfold(self.c_volume_rules[0], ind, state, self.c_param_values, old(volume), time, dt)', label='chained-so-far')
-    c.ensures('result == vfold(self.c_volume_rules[0], self.num_volume_rules, state, self.c_param_values, old(volume), time, dt)',
-              label='volume-rules-chained-in-registration-order-with-the-given-dt')
-    c.modifies()
-
-
-body('apply_volume_rules', _vrules)
-
-
-# ------------------------------------------------------------------------------------------------ the daughters' time grid
-@fuc('lineage', 'LineageSSASimulator.truncate_timepoints_less_than', props=['C19'])
-def _(c):
-    c.array('array', ndim=1, elem='Real')
-    c.loop(0).invariant('forall(lambda k: implies(0 <= k and k < j, array[k] < value))', label='earlier-points-are-before-the-division')
-    c.ensures('len(result) <= len(array)', label='a-suffix')
-    c.ensures('forall(lambda m: implies(0 <= m and m < len(result), result[m] == array[len(array) - len(result) + m]))', label='same-points-in-order')
-    c.ensures('forall(lambda k: implies(0 <= k and k < len(array) - len(result), array[k] < value))', label='dropped-points-are-before-the-division-time')
-    c.ensures('implies(len(result) > 0, result[0] >= value)', label='first-kept-point-is-not-before-the-division-time')
-    c.ensures('implies(len(result) == 0, forall(lambda k: implies(0 <= k and k < len(array), array[k] < value)))', label='empty-only-if-every-point-is-earlier')
-    c.modifies()
-
-
-# ------------------------------------------------------------------------------------------------ the lineage work list (BOUNDED)
-# One root cell; the work-list loop is explored for at most 3 processed cells (root and its two daughters), longer lineages are cut
-# at the bound and reported as bounded in the evidence.  Inside the bound every number is symbolic.
-@fuc('lineage', 'LineageSSASimulator.SimulateCellLineage', props=['C19'])
-def _(c):
-    c.array('timepoints', ndim=1, elem='Real')
-    c.hints['initial_cell_states'] = dict(value=lambda ex: _objs(ex, 'LineageVolumeCellState', 'root_state', 1))
-    c.hints['self.lineage'] = dict(value=lambda ex: ex.symbolic_obj(ex.program.find_class('Lineage'), 'the_lineage', exact=True))
-    c.hints['self.old_cell_states'] = dict(value=lambda ex: [])
-    c.hints['self.old_schnitzes'] = dict(value=lambda ex: [])
-    c.hints['root_state0.state_set'] = dict(value=1)
-    c.hints['self.interface.division_event_volume_splitters'] = dict(value=lambda ex: _splitters(ex, 'event', NE))
-    c.hints['self.interface.division_rule_volume_splitters'] = dict(value=lambda ex: _splitters(ex, 'rule', NR))
-    c.requires(WF_SIM)
-    c.requires('self.interface.num_division_rules == %d and self.interface.num_division_events == %d' % (NR, NE))
-    c.requires('len(timepoints) >= 2 and timepoints[0] <= timepoints[len(timepoints) - 1] and timepoints[1] > timepoints[0]')
-    c.requires('forall(lambda j: implies(0 <= j and j < len(timepoints) - 1, timepoints[j] < timepoints[j + 1]))')
-    c.requires('initial_cell_states[0].volume > 0 and len(initial_cell_states[0].state) == self.num_species')
-    c.assume('forall(lambda k: U(k) > 0)', 'uniform_rv() == 0 excluded')
-    c.loop(1).cut_after(3)
-    c.inline('LineageSSASimulator.simulate_daughter_cells', 'LineageSSASimulator.simulate_cell_list')
-
-    def check(ex, fr, result):
-        me = fr.env['self']
-        added = ex.ghost.get('lineage_added', [])
-        parts = ex.ghost.get('partitions', [])
-        ex.oblige('post', tm.mk_bool(result is ex.get_field(me, 'lineage')), label='returns-the-lineage')
-        ex.oblige('post', tm.mk_bool(len(added) == 1 + 2 * len(parts)), label='one-record-per-simulated-cell',
-                  note='%d records added, %d divisions' % (len(added), len(parts)))
-        ex.oblige('post', tm.mk_bool(len(set(id(s) for s in added)) == len(added)), label='no-record-added-twice')
-        ocs, osz = ex.get_field(me, 'old_cell_states'), ex.get_field(me, 'old_schnitzes')
-        ex.oblige('post', tm.mk_bool(len(ocs) == len(osz)), label='work-lists-stay-aligned')
-        for s in added:
-            p = ex.get_field(s, 'parent')
-            if p is not None:
-                ex.oblige('post', tm.mk_bool(ex.get_field(p, 'daughter1') is s or ex.get_field(p, 'daughter2') is s), label='a-cell-with-a-parent-is-one-of-its-daughters')
-            d1, d2 = ex.get_field(s, 'daughter1'), ex.get_field(s, 'daughter2')
-            if d1 is not None or d2 is not None:
-                ok = isinstance(d1, Obj) and isinstance(d2, Obj) and ex.get_field(d1, 'parent') is s and ex.get_field(d2, 'parent') is s and d1 is not d2
-                ex.oblige('post', tm.mk_bool(bool(ok)), label='daughters-point-back-to-their-mother')
-        # each division partitions the final state of a cell of the work list whose record is the mother of the two new records
-        for rec in parts:
-            k = [i for i, cs in enumerate(ocs) if cs is rec['parent']]
-            ex.oblige('post', tm.mk_bool(len(k) == 1), label='a-division-partitions-a-queued-final-cell-state')
-            if len(k) == 1:
-                mother = osz[k[0]]
-                d1, d2 = ex.get_field(mother, 'daughter1'), ex.get_field(mother, 'daughter2')
-                ex.oblige('post', tm.mk_bool(isinstance(d1, Obj) and isinstance(d2, Obj)), label='the-record-paired-with-the-divided-state-gets-the-daughters')
-    c.after(check)
-    c.raises('ValueError')
-    c.raises('RuntimeError')
-    c.opt(tier='thorough')
-    c.note('BOUNDED and thorough-tier only (path enumeration over the outcomes of three cells): lineages with at most 3 processed cells; the same loop body runs for every cell')
